@@ -1155,10 +1155,9 @@ APPEND(%%_shuffle_blocks_, i):
         vpaddq  xmm0, xmm6
 
         ; Put together A
-        vmovq   %%A0, xmm0
-        vmovq   %%T0, xmm1
-        shl     %%T0, 26
-        or      %%A0, %%T0
+        ; (limb 0 can exceed 26 bits after the last carry above: it is added in at the end, with carry)
+        vmovq   %%A0, xmm1
+        shl     %%A0, 26
         vmovq   %%T0, xmm2
         mov     %%T1, %%T0
         shl     %%T1, 52
@@ -1174,6 +1173,10 @@ APPEND(%%_shuffle_blocks_, i):
         or      %%A1, %%T1
         shr     %%T0, 24
         mov     %%A2, %%T0
+        vmovq   %%T0, xmm0
+        add     %%A0, %%T0
+        adc     %%A1, 0
+        adc     %%A2, 0
 
         ; Clear powers of R
 %ifdef SAFE_DATA
